@@ -33,6 +33,9 @@ MOD_NAMES = ['abs', 'omod', 'neg', 'opsel', 'opselhi', 'off0hi', 'off0lo', 'off1
 SLOT_NAMES = ['src0', 'src1', 'src2', 'dst', 'sdst', 'addr', 'data', 'data1', 'base', 'offset', 'simm16', 'saddr']
 
 
+CLEAN = {}     # trace path -> (lines that needed a deviation, high-water mark of the first pass)
+
+
 def trace_cfg(devs):
     return ('SPECIFICATION TSpec\nCONSTANTS\n  Deviations = {%s}\nCONSTRAINT Mark\nPOSTCONDITION Accepted\n'
             'CHECK_DEADLOCK FALSE\n' % ', '.join('"%s"' % d for d in devs))
@@ -128,6 +131,12 @@ def validate(ctx, trace_path, driver_info, stats):
         acc = common.validate_and_triage(ctx, ts, trace_path, driver_info)
     finally:
         ctx.validate_trace = orig
+    # which lines of the whole trace needed a deviation / where the first pass stopped
+    # (the binding self-test only corrupts lines that conform to the strict spec)
+    first = [o for tp, o in outs if tp == trace_path][:1]
+    devl = {int(m.group(1)) for m in re.finditer(r'<<"DEVIATION", (\d+),', first[0])} if first else set()
+    hw = re.search(r'<<"HIGHWATER", (\d+), (\d+)>>', first[0]) if first else None
+    CLEAN[trace_path] = (devl, int(hw.group(1)) if hw else 0)
     # deviations used on the first (whole-trace) pass and on later passes over the remainder
     seen = {}
     for tp, out in outs:
@@ -204,13 +213,10 @@ def scenarios(ctx, nsim, variants):
 
 
 def golden_rows():
-    out = set()
-    for line in open(GOLDEN):
-        if line.startswith('#') or not line.strip():
-            continue
-        c = line.split('\t')
-        out.add((c[0], int(c[1])))
-    return out
+    """(format, opcode) of every row of the audited golden table."""
+    sys.path.insert(0, os.path.join(vlib.SPEC, 'decode'))
+    import gen_optable
+    return {(r[0], r[1]) for r in gen_optable.rows()}
 
 
 # ----------------------------------------------------------------------------- self-test corruptions
@@ -298,8 +304,41 @@ def corruptions():
             ('skip_instruction', skip_instruction), ('early_end', early_end)]
 
 
+def strict_conforming(ctx, trace_path):
+    """The part of a validated trace that conforms to the *strict* spec: stand-alone lines that
+    needed a deviation are dropped, sub-traces in which a sequential line needed one (or that lie
+    beyond the point where validation stopped) are left out.  Every corruption of the self-test
+    turns such a line into one the strict spec certainly refuses; on the original lines a
+    corruption could coincide with a tolerated deviation (an error replaced by an instruction is
+    exactly what 'operand_inst' describes) and be accepted legitimately."""
+    devl, hw = CLEAN.get(trace_path, (set(), 0))
+    out = []
+    for start, recs in vlib.split_traces(trace_path):
+        if start + len(recs) - 1 >= hw:          # hw = n + 1 when the whole trace was accepted
+            break
+        keep, ok = [], True
+        for i, r in enumerate(recs):
+            if start + i in devl:
+                if r.get('e') != 'Dec':
+                    ok = False
+                    break
+                continue
+            keep.append(r)
+        if ok and len(keep) > 1:
+            out.extend(keep)
+    p = os.path.join(ctx.scratch, 'selftest_base.ndjson')
+    vlib.write_ndjson(p, out)
+    return p, len(out)
+
+
 def binding_selftest(ctx, trace_path):
-    ts = tspec(DEVIATIONS, 'DecodeTraceSelf.cfg')
+    base, n = strict_conforming(ctx, trace_path)
+    if n < 10:
+        if ctx.violations:
+            ctx.notes.append('binding self-test skipped: the trace has too few strict-conforming lines after a violation')
+            return []
+        raise vlib.Infra('binding self-test: no strict-conforming lines in %s' % trace_path)
+    ts = tspec([], 'DecodeTraceSelf.cfg')          # strict: no deviation can explain a corruption
     orig = ctx.validate_trace
 
     def vt(spec_dirs, module, cfg, tp, **kw):
@@ -314,7 +353,7 @@ def binding_selftest(ctx, trace_path):
         k = ctx.seed % len(cs)
         cs = (cs + cs)[k:k + 4]
     try:
-        return common.selftest_binding(ctx, ts, trace_path, cs)
+        return common.selftest_binding(ctx, ts, base, cs)
     finally:
         ctx.validate_trace = orig
 
@@ -393,7 +432,7 @@ def run(ctx, selftest=False):
         args = ['-golden', GOLDEN, '-random', per, '-seed', ctx.seed * 1000 + i]
         # chunk 0 decodes the shipped kernels of the tier; later chunks a few of them, whose
         # instruction words are the base of the mutated-word class
-        args += ['-kernels', vlib.REPO, '-kmod', kmod if i == 0 else 9]
+        args += ['-kernels', vlib.REPO, '-kmod', kmod if i == 0 else 9, '-koff', ctx.seed + i]
         args += ['-out']
         st = run_driver(ctx, drv, args + [t])
         ctx.log('kernels + random words [%d]: %s' % (i, st))
